@@ -392,7 +392,8 @@ VerdictOf ==
              "skip_misjudged"},   \* (a skipped test case counted as a valid one, or the other way round)
     C11 |-> {"phantom_failure", "lost_failure", "reported_failure_never_happened", "flaky_report", "skip_misjudged",
              "label_carried_over", "failure_message", "dead_context_in_body", "context_outlives_case",
-             "final_replay_passes"},   \* (the test case finally presented as falsifying is one in which nothing fails)
+             "final_replay_passes",    \* (the test case finally presented as falsifying is one in which nothing fails)
+             "report_failfile"},       \* (... or the report names another file than the one whose replay failed)
     C17 |-> {"ff_ignored_silently", "ff_changed_verdict", "ff_changed_cases", "ff_after_failure", "ff_order", "unusable_file_used",
              "check_crashed", "ff_phantom_failure", "ff_not_found"} ]   \* (an unusable file must not hide a usable one either)
 =============================================================================
